@@ -112,6 +112,8 @@ class Worker:
 def request(case, i, mode):
     pz = case.get("poison") or [3.0, 9.0]
     pv = {"A": pz[0], "B": pz[1], "N": None, "F": pz[0]}[mode]
+    if "scale" in case:
+        return {"id": i, "scale": case["scale"], "poison": pv}
     return {"id": i, "Y": case["Y"], "X": case["X"], "r": case["r"], "c": case["c"], "poison": pv,
             "Y2": case.get("Y2")}
 
